@@ -54,6 +54,9 @@ func c02Make(cs *h.Case) (*c02Case, bool) {
 		cs.Viol("j2t:parse-idl", "err", err, "idl", sc.IDL())
 		return nil, false
 	}
+	if strings.Contains(sc.IDL(), "go.tag=") {
+		cs.Cover("schema_with_go_tag_alias")
+	}
 	if idl := sc.IDL(); strings.Contains(idl, "typedef binary ") {
 		cs.Cover("schema_with_typedef_of_binary")
 	} else if strings.Contains(idl, "typedef string binary") {
